@@ -22,7 +22,11 @@ type FailoverGroup struct {
 // NewFailoverGroup initializes and returns a store wraps multiple stores to form a group that can fail over
 // between them on failure from one.
 func NewFailoverGroup(stores ...Store) *FailoverGroup {
-	return &FailoverGroup{stores: stores}
+	// Keep our own copy of the list, like the router does, the caller may go on
+	// using (and changing) the slice it passed in
+	l := make([]Store, len(stores))
+	copy(l, stores)
+	return &FailoverGroup{stores: l}
 }
 
 func (g *FailoverGroup) GetChunk(id ChunkID) (*Chunk, error) {
